@@ -80,6 +80,28 @@ def run(chk):
             oracle_bad.append(dict(info, op="assume_sorted=True", expected="no check", observed=str(e_assume)))
         exprs.append(f"[:: if check_sorted_raises K {cvec(x)} then 1%nat else 0%nat]")
         expect.append((info, 1 if e_eager == "ValueError" else 0))
+    # long inputs: a single adjacent inversion at positions around every multiple of 128 up to the length (block / chunk boundaries of any
+    # power-of-two size), for lengths just above 1024, 2048 and 4096; eager (and, for a few, jit); the sorted vector itself is accepted
+    for nbig in ((1025, 2050) if quick else (1025, 2050, 4100)):
+        base_x = np.arange(nbig, dtype=float) * 0.01
+        hist["long"] = hist.get("long", 0) + 1
+        if raised(lambda: build(base_x)) is not None:
+            oracle_bad.append(dict(op="long sorted input rejected", n=nbig, expected="accepted", observed="error"))
+        positions = sorted({p for m in range(128, nbig, 128) for p in (m - 1,)} | {0, nbig - 2, int(rng.integers(1, nbig - 2))})
+        for jpos, ppos in enumerate(positions):
+            xb = base_x.copy()
+            xb[ppos], xb[ppos + 1] = xb[ppos + 1], xb[ppos]
+            hist["long-inversion"] = hist.get("long-inversion", 0) + 1
+            if raised(lambda: build(xb)) != "ValueError":
+                oracle_bad.append(dict(op="eager construction on a long input with one adjacent inversion", n=nbig, inversion_at=[int(ppos), int(ppos) + 1],
+                                       expected="ValueError", observed="no error"))
+            elif jpos % 8 == 0 and raised(lambda: jit_build(jnp.asarray(xb))) is None:
+                oracle_bad.append(dict(op="jit execution on a long input with one adjacent inversion", n=nbig, inversion_at=[int(ppos), int(ppos) + 1],
+                                       expected="an error at execution", observed="no error"))
+        # two sorted segments exchanged at a multiple of 1024
+        xr = np.concatenate([base_x[1024:], base_x[:1024]])
+        if raised(lambda: build(xr)) != "ValueError":
+            oracle_bad.append(dict(op="eager construction on two sorted segments joined out of order", n=nbig, joined_at=nbig - 1024, expected="ValueError", observed="no error"))
     # vmap over several coordinate vectors, one of them unsorted: error at execution
     Xb = jnp.asarray(np.array([[0.0, 1.0, 2.0], [0.0, 2.0, 1.0]]))
     if raised(lambda: jax.vmap(build)(Xb)) is None:
